@@ -15,6 +15,7 @@ functions.
 * `T16_1` — an image accepted by `wfImage` decodes (`absImage` succeeds) to a list whose keys are
   strictly increasing; hence (`T16_1_nodup`, `T16_1_one_leaf`) no key is stored twice and every key
   lives in exactly one leaf (leaves are ordered among themselves).
+* `T16_lookup` — the read path (separator routing + search of one leaf) agrees with `absImage`.
 -/
 namespace Nomt.C16
 open Nomt Nomt.Store
@@ -39,8 +40,8 @@ theorem T16_rt_record_header (len id : Nat) (hl : len < 2^32) (hi : id < 2^64) :
 /-- **T16.1** a well-formed image decodes, and its key list is strictly increasing -/
 theorem T16_1 (img : Image) (st : Stats) (h : wfImage img = .ok st) :
     ∃ kvs, absImage img = .ok kvs ∧ (kvs.map (fun kv => keyNat kv.1)).Pairwise (· < ·) := by
-  obtain ⟨kvs, ha, hs⟩ := wfImage_abs h
-  exact ⟨kvs, ha, pairwise_of_strictlySorted _ hs⟩
+  obtain ⟨d, hd, hs, _, _⟩ := wfImage_decoded h
+  exact ⟨d.ls.flatten, (absImage_of_decodeAll hd).2, pairwise_of_strictlySorted _ hs⟩
 
 /-- no key is stored twice in a well-formed image -/
 theorem T16_1_nodup (img : Image) (st : Stats) (h : wfImage img = .ok st) :
@@ -54,9 +55,15 @@ theorem T16_1_one_leaf (img : Image) (st : Stats) (h : wfImage img = .ok st) :
     ∃ ls, absLeaves img = .ok ls ∧ absImage img = .ok ls.flatten ∧
       ls.Pairwise (fun l₁ l₂ => ∀ a ∈ l₁, ∀ b ∈ l₂, keyNat a.1 < keyNat b.1) ∧
       ∀ l ∈ ls, (l.map (fun kv => keyNat kv.1)).Pairwise (· < ·) := by
-  obtain ⟨kvs, ha, hs⟩ := T16_1 img st h
-  obtain ⟨ls, hl, rfl⟩ := absImage_leaves ha
-  exact ⟨ls, hl, ha, leaves_ordered hs⟩
+  obtain ⟨d, hd, hs, _, _⟩ := wfImage_decoded h
+  obtain ⟨h1, h2⟩ := absImage_of_decodeAll hd
+  exact ⟨d.ls, h1, h2, leaves_ordered (pairwise_of_strictlySorted _ hs)⟩
+
+/-- **T1.6 (read path)** on a well-formed image, routing a key through the separators
+(`findLeaf`, the specification of `search_branch`) and searching only the selected leaf returns
+exactly the value that the abstract state `absImage` associates with the key -/
+theorem T16_lookup (img : Image) (st : Stats) (h : wfImage img = .ok st) (k : Nat) :
+    ∃ kvs, absImage img = .ok kvs ∧ lookup img k = .ok (kvGet kvs k) := lookup_eq_kvGet h k
 
 /-- a concrete manifest round trip, evaluated by the kernel -/
 example : decodeMeta (encodeMeta sampleMeta) = some sampleMeta := by decide
